@@ -73,6 +73,33 @@ CLAIMED["C05"] = dict(
          "match is not modelled.",
     technique="TLA+ transcription of the compiler's bookkeeping model-checked with TLC; predicted event lists replayed on instrumented runtimes; trace validation",
 )
+CLAIMED["C09"] = dict(
+    category="model_checking",
+    text="StagingCore.tla models the macro stage (quote, splice, f!(..), macro-stage let, functions as values, numeric recursion that "
+         "builds code, lift_f) and its hygienic expansion into plain Lang programs; Staging.tla places every LangGen expression of the "
+         "budget in every staging context and TLC checks the laws on the specification (quote-then-splice is the identity on meaning, "
+         "f!(a) means $(f(a)), a macro passed as a value means the direct call). Each staged program and its printed expansion run on "
+         "both back ends against the samples Lang assigns to the expansion, and Lockstep.tla validates staged against expanded sample "
+         "by sample. A table of further expression forms and of macro-stage float arithmetic through lift_f is validated staged against "
+         "hand expansion, bit for bit.",
+    design_ref="DESIGN.md §6 C09",
+    note="Contexts whose template puts the spliced code under a lambda take pure expressions only (self and call-site state belong to "
+         "the function they are written in; such an expansion cannot be written as a plain program by substitution). Integer match "
+         "inside quoted code is a pinned finding.",
+    technique="TLA+ model of the macro stage and its expansion over a definitional evaluator, checked with TLC; generated staged programs replayed on VM and WASM next to their expansion with lock-step trace validation",
+)
+CLAIMED["C10"] = dict(
+    category="model_checking",
+    text="Hygiene.tla spans a matrix of macro templates and use sites over a two-name alphabet (binder form x template binder name x "
+         "use-site name x form of the spliced code x use-site form x call syntax); TLC visits every cell, checks RenamingInvariant on "
+         "the specification (renaming the template's binder leaves the samples unchanged) under hygienic expansion and must find its "
+         "violation under name-based expansion. Every cell runs on both back ends against the samples of the hygienic expansion, and "
+         "Lockstep.tla validates each cell against its renamed twin.",
+    design_ref="DESIGN.md §6 C10",
+    note="On the pinned tree expansion is name-based: the 144 cells in which the two names coincide and the template binder encloses "
+         "the hole are pinned findings (each by its source); every other cell must be clean.",
+    technique="TLA+ hygiene matrix with a renaming invariant checked exhaustively with TLC (and refuted for name-based expansion); every cell replayed on VM and WASM with lock-step validation against its renamed twin",
+)
 CLAIMED["C11"] = dict(
     category="model_checking",
     text="Scheduler.tla models the two scheduler mechanisms action by action (VM: mpsc channel drained against the previous "
